@@ -59,8 +59,8 @@ def _case(cid, hist, rng, nocontact=False):
     acts = ["0:invite"]
     t = 1000
     for h in hist:
-        code, tag = h.split(":")
-        extra = "" if nocontact else extra_for(int(code), tag, rng)
+        code, tag = h.rstrip("!").split(":")
+        extra = "" if (nocontact or h.endswith("!")) else extra_for(int(code), tag, rng)
         acts.append("%d:resp:%s:%s:%s" % (t, code, tag, hx(extra)))
         t += 1000
     acts.append("%d:wait" % (t + 40000))
@@ -110,6 +110,11 @@ def gen_cases(rng, tier):
         cases.append(_case("r%d" % i, hist, rng))
     for i, hist in enumerate((["180:a"], ["200:a"], ["183:a", "200:a"])):
         cases.append(_case("nc%d" % i, hist, rng, nocontact=True))
+    # a dialog-creating response the caller cannot use (To-tag but no Contact: reported as an error, nothing is created) must leave no
+    # trace: what comes later for that To-tag is classified as if it were the first
+    for i, hist in enumerate((["183:a!", "200:a"], ["183:a!", "180:a"], ["183:a!", "180:a", "200:a"], ["180:b", "183:a!", "200:a"], ["100:-", "183:a!", "183:a!", "180:a", "486:-"],
+                              ["200:a!", "200:a"], ["183:a!", "200:b", "200:a"], ["180:a", "183:b!", "180:b", "200:b", "200:a"])):
+        cases.append(_case("cl%d" % i, hist, rng))
     # an application that reads its early dialog late: 2..9 further responses with the same To-tag queue up behind the first one
     # (the early dialog's channel holds four) and must all arrive, in order, the 2xx last
     for i in range(12 if tier == "quick" else 120):
@@ -122,7 +127,10 @@ def gen_cases(rng, tier):
 
 
 def model_case(case, impl):
-    return [case[0], "c13", case[6]]
+    # the model does not see the responses that are reported as unusable (no Contact)
+    mc = [case[0], "c13", ",".join(h for h in case[6].split(",") if not h.endswith("!"))]
+    # an application that reads late: what is forwarded to an early dialog passes through the channel model (Model/C13q.v)
+    return mc + (["slow"] if "slowearly" in case[3] else [])
 
 
 def _tokens(impl):
@@ -158,6 +166,8 @@ def normalize_impl(case, s):
         evs = ev2
     res = []
     for i, h in enumerate(hist):
+        if h.endswith("!"):
+            continue
         t = 1000 * (i + 1)
         mine = [n for n, tt in evs if tt == t]
         toks = []
@@ -197,7 +207,15 @@ def oracle(case, impl):
         return ["panic: " + impl[-300:]]
     if case[0].startswith("nc"):
         return []
-    hist = [h.split(":") for h in case[6].split(",")]
+    unusable = [i for i, h in enumerate(case[6].split(",")) if h.endswith("!")]
+    for i in unusable:
+        mine = [n for n, tt in _tokens(impl) if tt == 1000 * (i + 1)]
+        if [n for n in mine if not n.startswith("initiator-error")]:
+            return ["response %d carries a To-tag but no Contact (no dialog can be created from it) and yet produced %r" % (i, mine)]
+    orig = [i for i, h in enumerate(case[6].split(",")) if not h.endswith("!")]
+    # the transaction's 64*T1 run from the first 2xx it sees, usable for a dialog or not
+    all2xx = [i for i, h in enumerate(case[6].split(",")) if 200 <= int(h.split(":")[0]) <= 299]
+    hist = [h.split(":") for h in case[6].split(",") if not h.endswith("!")]
     got = normalize_impl(case, impl).split(" ")
     early = {}          # tag -> 'early' | 'session'
     direct = set()
@@ -229,7 +247,7 @@ def oracle(case, impl):
         else:
             want = "session:" + tag; direct.add(tag)
         if 200 <= code <= 299 and first2xx is None:
-            first2xx = 1000 * (i + 1)
+            first2xx = 1000 * (orig[i] + 1)
         if g != want:
             return ["response %d (%d, To-tag %s): recipient %r, the property's case table gives %r" % (i, code, tag, g, want)]
     # session dialogs: identifiers from that response
@@ -255,6 +273,8 @@ def oracle(case, impl):
         if ok and routes not in ok:
             return ["session route set %r is not the reversed Record-Route of its responses (%r)" % (routes, sorted(ok))]
     fin = [t for n, t in _tokens(impl) if n == "finished"]
+    if all2xx:
+        first2xx = 1000 * (all2xx[0] + 1)
     if first2xx is not None and "slowearly" in case[3]:
         # the initiator waited for the application to drain the early dialog's channel before it saw the 2xx: the 64*T1 run from then
         slow = int(case[3].split("slowearly=")[1])
